@@ -4,7 +4,7 @@ from contracts import spec_header as SH
 from contracts import spec_sd as SS
 from contracts import spec_sdcodec as SC
 
-FUNCTIONS = sorted(SC.CONTRACTS.keys()) + ["someip.header.SOMEIPSDEntry.assign_option_index", "someip.header.SOMEIPSDHeader.assign_option_indexes (bounded)", "someip.sd.ServiceDiscoveryProtocol.send_sd"]
+FUNCTIONS = sorted(SC.CONTRACTS.keys()) + ["someip.header.SOMEIPSDEntry.assign_option_index", "someip.header.SOMEIPSDHeader.assign_option_indexes", "someip.sd.ServiceDiscoveryProtocol.send_sd"]
 
 ASSUMPTIONS = [
     "options are arbitrary values compared by equality (opaque) where only sharing matters; each option class has its own codec obligations with symbolic fields",
@@ -14,15 +14,13 @@ ASSUMPTIONS = [
     "configuration strings: keys non-empty ASCII without '=', each string at most 255 bytes (as in the property's quantifier)",
 ]
 
-BOUNDED = [
-    "ob_sd_assign_resolve_bounded: SOMEIPSDHeader.assign_option_indexes / resolve_options glue with 0..2 entries (run lengths, shared array and all field values symbolic)",
-    "ob_send_sd_refines: ServiceDiscoveryProtocol.send_sd with 0..1 entries per call",
-]
+BOUNDED = []
+LEVEL = "proof"
 
 EXPLANATION = (
-    "element codecs (entry, every option class, configuration strings), the SD header split/flags, the parse/build loops (by loop contracts), "
-    "_find soundness/termination and the assign-then-resolve step are discharged for all values and all lengths; the comprehension glue of "
-    "assign_option_indexes/resolve_options and send_sd is checked with a bounded number of entries (stated in bounded_stand_ins), hence level other"
+    "element codecs (entry, every option class, configuration strings), the SD header split/flags, the parse/build loops (loop contracts), "
+    "_find soundness/termination, the assign-then-resolve step, assign_option_indexes / resolve_options over arbitrarily many entries "
+    "(comprehension contracts) and send_sd over arbitrarily many entries are discharged for all values and all lengths"
 )
 
 HARNESSES = (
